@@ -5,7 +5,12 @@ def unit():
     return Unit(
         name="vl_lemmas", kind="verus", members=[], package="", inject=[],
         harnesses=[Harness("verus/pae_injective.rs", ["C15", "C02"], timeout=600, functions=["spec: pae, le64 (mirrors units/u1_pae postcondition)"],
-                           desc="Verus: small(a) && small(b) && pae(a) == pae(b) ==> a == b (unbounded induction over the piece list)")],
+                           desc="Verus: small(a) && small(b) && pae(a) == pae(b) ==> a == b (unbounded induction over the piece list)"),
+                   Harness("verus/b64_blocks.tmpl.rs", ["C09", "C04"], timeout=600,
+                           functions=["paseto-core/src/base64.rs: decode_6bits, encode_6bits, decode_3bytes, encode_3bytes, decoded_len (text spliced from /repo on every run by verus/gen_b64.py)"],
+                           desc="Verus function contracts on the repository's base64 leaf functions (all inputs, overflow-free): decode_6bits == alphabet inverse / -1, "
+                                "encode_6bits == alphabet, decode_3bytes error flag exact and octets == 24-bit group of the sextets, encode_3bytes the converse, "
+                                "decoded_len == floor(3n/4) for every usize; block round trip derived from the contracts alone; alphabet bijection lemma. min_verified=21")],
         assumptions=["the spec function pae in verus/pae_injective.rs is the postcondition proved for pre_auth_encode in u1_pae (same definition: le64(count) then per piece le64(len) || bytes)"],
-        trusted=["Verus 0.2026.09.13 + Z3"],
+        trusted=["Verus 0.2026.09.13 + Z3", "verus/gen_b64.py (splices function text; drops attributes/doc comments, names the return value, inserts contract + ghost proof block)"],
     )
